@@ -36,8 +36,10 @@ def hexs(s):
 
 GOOD_EMAILS = ["a@b.com", "john.smith@mail.example.org", "x_y+z@sub-domain.io"]
 BAD_EMAILS = ["ab", "a@", "@b.com", "a b@c.com", "a..b@c.com", ".a@b.com", "a@b..com", "a@-b.com"]
-GOOD_PHONES = ["+123456789", "+1 (234) 567-89-00", "+44 20 7946 0958"]
-BAD_PHONES = ["12345678", "+123", "+12-", "+1 ((23) 4567890", "+1234567a89", "+1234567890123456"]
+GOOD_PHONES = ["+123456789", "+1 (234) 567-89-00", "+44 20 7946 0958",
+               "+1234567", "+123456789012345", "+1 (234) 567-89-01 2345", "+12 345 67"]      # exactly 7 and exactly 15 digits: both bounds are inclusive
+BAD_PHONES = ["12345678", "+123", "+12-", "+1 ((23) 4567890", "+1234567a89", "+1234567890123456",
+              "+123456", "+12 (345) 6", "+1 (234) 567-89-01 23456"]                               # 6 and 16 digits
 
 INT_VALIDATORS = ["R", "R!", "G1:10", "G!-5:5", "G3:3", "Ce", "Ca", "Cu"]
 INT_VALUES = ["i5", "i1", "i10", "i2", "i9", "i0", "i11", "i-5", "i-6", "i3", "i4", "i-1000", "i70000", None, "n", "s78", "a1,i1", "d3ff0000000000000"]
